@@ -112,7 +112,18 @@ def run(ctx):
     hist = list(enum_for("full").terms(typed.B, 0)) + list(enum_for("full").terms(typed.B, 1))
     for t in hist + hist[::-1]:
         check_term(ctx, t, styles=("min",), aliases=(None,))
-    ctx.layer("history-forward-reverse", filters=2 * len(hist), exhaustive=True)
+    # ... and once more through ONE visitor instance reused for every filter (per-instance memo tables, flags)
+    shared = AstToSqliteSqlVisitor()
+    for t in hist + hist[::-1]:
+        cols = colkey(typed.fields_of(t))
+        tx = to_odata(t)
+        try:
+            sql = shared.visit(_ps.parse(_lx.tokenize(tx)))
+            got = set(harness().select_ids(cols, sql))
+        except Exception as e:  # noqa
+            got, sql = ("EXC", type(e).__name__, str(e)[:200]), None
+        SC.judge(ctx, "sqlite", t, tx, cols, got, DEFECT_MODELS, {"alias": None, "sql": sql, "cols": list(cols), "visitor": "one shared instance"})
+    ctx.layer("history-forward-reverse", filters=4 * len(hist), exhaustive=True, note="fresh visitor per filter, then one shared visitor instance")
     strs = SC.sigma_strings(2)
     ctx.pmap(_string_unit, [strs[i::32] for i in range(32)])
     ctx.layer("string-literals", strings=len(strs), positions=len(SC.string_position_terms(T.Str("x"), CAP)), exhaustive=True)
